@@ -65,8 +65,30 @@ fn candidate<A: AffineRepr + CanonicalSerialize>(mode: u8, payload: &[u8]) -> Ve
     }
 }
 
+/// class "isomorphic image": (t^2 x, t^3 y) of a subgroup point lies on y^2 = x^3 + t^4 a x + t^6 b - a different
+/// curve on which the group law (and hence any subgroup test that assumes the curve) behaves identically.
+fn iso_image<P: SWCurveConfig>(mode: u8, payload: &[u8]) -> Option<Vec<u8>> {
+    if mode & 16 == 0 || payload.len() < 9 {
+        return None;
+    }
+    let mut k = [0u8; 8];
+    k.copy_from_slice(&payload[..8]);
+    let k = u64::from_le_bytes(k) | 1;
+    let t = P::BaseField::from(payload[8] as u64 + 2);
+    let p = (SwAffine::<P>::generator() * P::ScalarField::from(k)).into_affine();
+    if p.infinity {
+        return None;
+    }
+    let t2 = t.square();
+    let q = SwAffine::<P>::new_unchecked(p.x * t2, p.y * t2 * t);
+    let (compress, _) = modes(mode);
+    let mut bytes = Vec::new();
+    q.serialize_with_mode(&mut bytes, compress).ok()?;
+    Some(bytes)
+}
+
 fn sw<P: SWCurveConfig>(mode: u8, payload: &[u8]) {
-    let bytes = candidate::<SwAffine<P>>(mode, payload);
+    let bytes = iso_image::<P>(mode, payload).unwrap_or_else(|| candidate::<SwAffine<P>>(mode, payload));
     let (compress, validate) = modes(mode);
     let mut rd = CountingReader { data: &bytes, pos: 0 };
     let r = SwAffine::<P>::deserialize_with_mode(&mut rd, compress, validate);
